@@ -212,7 +212,10 @@ virtual_block_allocator::virtual_block_allocator(std::size_t block_size, std::si
 
 virtual_block_allocator::~virtual_block_allocator() noexcept
 {
-    virtual_memory_release(cur_, static_cast<std::size_t>(end_ - cur_) / virtual_memory_page_size);
+    // a moved-from allocator does not own a range
+    if (cur_)
+        virtual_memory_release(cur_,
+                               static_cast<std::size_t>(end_ - cur_) / virtual_memory_page_size);
 }
 
 memory_block virtual_block_allocator::allocate_block()
